@@ -387,7 +387,10 @@ class RF24Mesh(RF24MeshNoMaster):
                 self.frame_buf.header.to_node = self.frame_buf.header.from_node
                 self.frame_buf.message = struct.pack("<H", new_addr)
                 if self.frame_buf.header.from_node != NETWORK_DEFAULT_ADDR:
+                    # frame_buf is re-used for incoming frames while waiting for a NETWORK_ACK
+                    response = self.frame_buf.pack()
                     if not self._write(self.frame_buf.header.to_node, TX_NORMAL):
+                        self.frame_buf.unpack(response)
                         self._write(self.frame_buf.header.to_node, TX_NORMAL)
                 else:
                     self._write(self.frame_buf.header.to_node, TX_PHYSICAL)
